@@ -1,4 +1,5 @@
 import NibabelModel.Lemmas.C11
+import NibabelModel.Lemmas.C11_State
 /-! Props/C11 — NIfTI extensions are preserved and never collide with the voxel data.
 
   All statements are unbounded: every list of extensions, every content length and byte values, every int32
@@ -499,7 +500,7 @@ theorem pair_roundtrip (fmt : Fmt) (e : Endian) (xs : List Ext) (userOff : Nat) 
           List.drop_succ_cons, List.drop_zero]
         rw [if_neg (by omega)]
         simp only [Bool.false_eq_true, if_false]
-        exact parseExts_eof e (x :: xs) bytes (-1) (by omega) hok hser
+        exact parseExts_eof e (x :: xs) bytes Nb.Gen.C11.pairExtSize (by decide) hok hser
       simp only [hchk, bind_ok, hexts, himg, hdrop, readData_exact, map_ok]
 
 example : AllOK [⟨4, [1, 2, 3, 0, 0]⟩] ∧ ([9, 9] : List Nat) ≠ [] ∧ nifti1.Exact 20 := by decide
@@ -567,5 +568,446 @@ theorem ext_gap_fixed_example :
     parseExts .le ([16, 0, 0, 0, 6, 0, 0, 0, 104, 105, 0, 0, 0, 0, 0, 0] ++ (zeros 16 ++ [1, 2, 3])) 32
       = .ok [⟨6, [104, 105]⟩] := by
   decide
+
+
+/-! # PHASE 3 (wave 3): the object state of extensions and of the headers that carry them (Model/C11_State)
+
+  An extension object serialises lazily (`_raw`, `_object`, `_sync`); headers hold LISTS OF REFERENCES to extension
+  objects, and `copy` / `from_header` / image construction share the objects while the lists are independent.  The
+  method bodies of `_sync`, `get_object`, `content` are GENERATED from the source AST (unfolded only in
+  Lemmas/C11_State), `_mangle` / `_unmangle` are arbitrary functions (no inverse law is assumed), the class
+  conversion table and the write plan of `write_to` are regenerated from the source.  All statements hold for EVERY
+  world (heap + headers), hence after every history of operations (`history_save_load` says so explicitly). -/
+
+namespace World
+variable {Obj : Type}
+
+/-- the operations that only READ extension contents or rearrange headers -/
+def XOp.isRead : XOp Obj → Bool
+  | .content .. | .size .. | .total .. | .del .. | .share .. | .copy .. | .fromHeader .. | .mkImg .. | .setOff ..
+  | .saveHdr .. | .saveImg .. => true
+  | _ => false
+
+theorem step_read_shown (m : Endian) (w : World Obj) (op : XOp Obj) (hr : XOp.isRead op = true) (k : Nat) :
+    (((w.step m op).1.heap[k]?).map XCell.shownExt) = (w.heap[k]?).map XCell.shownExt := by
+  cases op with
+  | newRaw => cases hr
+  | newObj => cases hr
+  | getObj => cases hr
+  | edit => cases hr
+  | content h i =>
+    simp only [World.step]
+    cases hc : w.cellAt h i with
+    | none => rfl
+    | some p =>
+      obtain ⟨r, c⟩ := p
+      simp only
+      exact setCell_shownExt w r c _ (cellAt_heap w h i r c hc).1 (by rw [XCell.content_eq]; exact XCell.sync_shownExt c) k
+  | size h i =>
+    simp only [World.step]
+    cases hc : w.cellAt h i with
+    | none => rfl
+    | some p =>
+      obtain ⟨r, c⟩ := p
+      simp only
+      exact setCell_shownExt w r c _ (cellAt_heap w h i r c hc).1 (by rw [XCell.size_eq]; exact XCell.sync_shownExt c) k
+  | total h =>
+    simp only [World.step]
+    cases w.hdrs[h]? with
+    | none => rfl
+    | some hd => exact syncRefs_shownExt w hd.refs k
+  | del h i =>
+    simp only [World.step]
+    cases w.hdrs[h]? with
+    | none => rfl
+    | some hd => simp only; split <;> rfl
+  | share h i h2 pos =>
+    simp only [World.step]
+    split
+    · split <;> rfl
+    · rfl
+  | copy h =>
+    simp only [World.step]
+    cases w.hdrs[h]? <;> rfl
+  | fromHeader h cls fmt single =>
+    simp only [World.step]
+    cases w.hdrs[h]? with
+    | none => rfl
+    | some hd => simp only; cases convert m hd cls fmt single <;> rfl
+  | mkImg h cls fmt single =>
+    simp only [World.step]
+    cases w.hdrs[h]? with
+    | none => rfl
+    | some hd => simp only; cases convert m hd cls fmt single <;> rfl
+  | setOff h off =>
+    simp only [World.step]
+    cases w.hdrs[h]? <;> rfl
+  | saveHdr h =>
+    simp only [World.step]
+    cases w.hdrs[h]? with
+    | none => rfl
+    | some hd =>
+      simp only [World.saveHdrCore]
+      have := syncRefs_shownExt w hd.refs k
+      split
+      · split
+        · exact this
+        · split <;> exact this
+      · split <;> exact this
+  | saveImg h data =>
+    simp only [World.step]
+    cases w.hdrs[h]? with
+    | none => rfl
+    | some hd =>
+      simp only
+      have := syncRefs_shownExt w hd.refs k
+      split
+      · simp only [World.saveImgCore]
+        split
+        · split <;> exact this
+        · split <;> exact this
+      · rfl
+
+end World
+
+open World
+
+/-! ## extension objects: lazily serialised state (`_raw`, `_object`, `_sync`) -/
+
+theorem ext_object_state {Obj : Type} (x : XCell Obj) (f : Obj → Obj) :
+    (x.content.2 = x.shown ∧ x.size.2 = sizeOnDisk x.shown.length ∧ x.getObject.2 = x.toObj) ∧
+    (x.content.1.shownExt = x.shownExt ∧ x.content.1.obj = x.obj ∧ x.content.1.raw = x.shown) ∧
+    (x.size.1 = x.content.1) ∧
+    (x.getObject.1.obj = some x.toObj ∧ x.getObject.1.raw = x.raw ∧ x.getObject.1.code = x.code ∧
+      x.getObject.1.shown = x.codec.mangle x.toObj ∧ (x.obj ≠ none → x.getObject.1 = x)) ∧
+    ((x.edit f).shown = x.codec.mangle (f x.toObj) ∧ (x.edit f).toObj = f x.toObj ∧ (x.edit f).code = x.code ∧
+      (x.edit f).raw = x.raw) := by
+  rw [XCell.content_eq, XCell.size_eq, XCell.getObject_eq, XCell.edit_eq, XCell.sync_shownExt]
+  refine ⟨⟨rfl, rfl, rfl⟩, ⟨rfl, ?_, ?_⟩, rfl, ⟨rfl, rfl, rfl, rfl, ?_⟩, rfl, rfl, rfl, rfl⟩
+  · rw [XCell.sync_eq]
+  · rw [XCell.sync_eq]
+  · intro h
+    cases x with
+    | mk c code raw obj =>
+      cases obj with
+      | none => exact absurd rfl h
+      | some o => rfl
+
+example : (XCell.ofRaw ⟨fun o => o ++ [10], fun b => b.filter (· != 32)⟩ 6 [65, 32, 66] : XCell (List Nat)).getObject.1.shown
+    = [65, 66, 10] := by decide
+
+theorem write_emits_shown {Obj : Type} (e : Endian) (x : XCell Obj) :
+    (x.writeTo e).2 = serializeExt e x.shownExt ∧ (x.writeTo e).1.shownExt = x.shownExt ∧
+    (∀ bytes, (x.writeTo e).2 = .ok bytes → (bytes.length : Int) = x.size.2 ∧ x.size.2 % 16 = 0) := by
+  have h1 : (x.writeTo e).2 = serializeExt e x.shownExt := by
+    unfold XCell.writeTo; rw [XCell.size_eq]; simp only [XCell.sync_toExt]
+  refine ⟨h1, ?_, ?_⟩
+  · unfold XCell.writeTo; rw [XCell.size_eq]; exact XCell.sync_shownExt x
+  · intro bytes hb
+    rw [h1] at hb
+    rw [XCell.size_eq]
+    have hok : ExtOK x.shownExt := by
+      by_cases hx : ExtOK x.shownExt
+      · exact hx
+      · rw [serializeExt_err e _ hx] at hb; cases hb
+    rw [serializeExt_ok e _ hok] at hb
+    cases hb
+    have hc : x.shownExt.content = x.shown := rfl
+    have hb := body_length x.shownExt
+    have hs := sizeOnDisk_spec x.shownExt.content.length
+    rw [hc] at hb hs
+    simp only [List.length_append, encI32_length, hc] at hb ⊢
+    exact ⟨by omega, hs.1⟩
+
+example : ((XCell.ofObj ⟨id, id⟩ 6 [104, 105] : XCell (List Nat)).writeTo .le).2 =
+    .ok [16, 0, 0, 0, 6, 0, 0, 0, 104, 105, 0, 0, 0, 0, 0, 0] := by decide
+
+/-! ## headers sharing extension objects: what a save emits -/
+
+/-- what an image save does when the extension list is `exts` (the file-level model of Model/C11) -/
+def saveImgSpec {Obj : Type} (hd : XHdr) (exts : List Ext) (data : List Nat) : XObs Obj :=
+  if hd.single then
+    match writeSingle hd.fmt hd.endian exts hd.req data with
+    | .error e => .err e
+    | .ok f => .imgSaved (.single f (readSingle hd.fmt hd.endian f data.length))
+  else
+    match writePair hd.fmt hd.endian exts hd.req data with
+    | .error e => .err e
+    | .ok p => .imgSaved (.pair p (readPair hd.fmt hd.endian p data.length))
+
+/-- what `header.write_to` does when the extension list is `exts` -/
+def saveHdrSpec {Obj : Type} (hd : XHdr) (exts : List Ext) : XObs Obj :=
+  if hd.single then
+    match chooseOffset hd.fmt exts hd.req with
+    | .error e => .err e
+    | .ok off =>
+      match extBlock true hd.endian exts with
+      | .error e => .err e
+      | .ok blk => .hdrSaved off.toNat blk
+  else
+    match extBlock false hd.endian exts with
+    | .error e => .err e
+    | .ok blk => .hdrSaved (hd.fmt.offRepr hd.req) blk
+
+theorem save_emits_shown {Obj : Type} (m : Endian) (w : World Obj) (h : Nat) (hd : XHdr) (data : List Nat)
+    (hh : w.hdrs[h]? = some hd) :
+    (w.step m (.saveHdr h)).2 = saveHdrSpec hd (w.shownExts hd.refs) ∧
+    (hd.isImg = true → data ≠ [] → (w.step m (.saveImg h data)).2 = saveImgSpec hd (w.shownExts hd.refs) data) ∧
+    (w.step m (.total h)).2 = .int (totalSize (w.shownExts hd.refs)) := by
+  refine ⟨?_, ?_, ?_⟩
+  · simp only [World.step, hh, World.saveHdrCore, rawExts_syncRefs, saveHdrSpec]
+    cases hd.single
+    · simp only [Bool.false_eq_true, if_false]
+      cases extBlock false hd.endian (w.shownExts hd.refs) <;> rfl
+    · simp only [if_true]
+      cases chooseOffset hd.fmt (w.shownExts hd.refs) hd.req with
+      | error e => rfl
+      | ok off => cases extBlock true hd.endian (w.shownExts hd.refs) <;> rfl
+  · intro hi hd0
+    have hne : ¬ data.isEmpty = true := by
+      cases data with
+      | nil => exact absurd rfl hd0
+      | cons a l => simp
+    simp only [World.step, hh, hi, hne, World.saveImgCore, rawExts_syncRefs, saveImgSpec]
+    cases hd.single
+    · simp only [Bool.false_eq_true, if_false]
+      cases writePair hd.fmt hd.endian (w.shownExts hd.refs) hd.req data <;> rfl
+    · simp only [if_true]
+      cases writeSingle hd.fmt hd.endian (w.shownExts hd.refs) hd.req data <;> rfl
+  · simp only [World.step, hh, rawExts_syncRefs]
+
+
+/-! ## any history, then a save -/
+
+theorem history_save_load {Obj : Type} (m : Endian) (w0 : World Obj) (ops : List (XOp Obj)) (h : Nat) (hd : XHdr)
+    (data : List Nat) (hh : (World.run m w0 ops).1.hdrs[h]? = some hd) (hi : hd.isImg = true) (hd0 : data ≠ [])
+    (hf : FmtOK hd.fmt) (hok : AllOK ((World.run m w0 ops).1.shownExts hd.refs)) :
+    (hd.single = true → (hd.req = 0 ∨ Fits hd.fmt ((World.run m w0 ops).1.shownExts hd.refs) hd.req) →
+      ∃ f bytes, ((World.run m w0 ops).1.step m (.saveImg h data)).2 =
+          .imgSaved (.single f (.ok ⟨((World.run m w0 ops).1.shownExts hd.refs).map Ext.strip, f.voxOffset, data⟩)) ∧
+        serializeExts hd.endian ((World.run m w0 ops).1.shownExts hd.refs) = .ok bytes ∧
+        hd.fmt.hdrSize + 4 + bytes.length ≤ f.voxOffset ∧
+        f.after = (if ((World.run m w0 ops).1.shownExts hd.refs).isEmpty then [0, 0, 0, 0] else [1, 0, 0, 0]) ++ bytes ++
+                  zeros (f.voxOffset - (hd.fmt.hdrSize + 4 + bytes.length)) ++ data) ∧
+    (hd.single = false →
+      ∃ p, ((World.run m w0 ops).1.step m (.saveImg h data)).2 =
+          .imgSaved (.pair p (.ok ⟨((World.run m w0 ops).1.shownExts hd.refs).map Ext.strip, hd.fmt.offRepr hd.req, data⟩)) ∧
+        p.img = zeros (hd.fmt.offRepr hd.req) ++ data) := by
+  generalize (World.run m w0 ops).1 = w at hh hok ⊢
+  generalize hxs : w.shownExts hd.refs = xs at hok ⊢
+  have hs := (save_emits_shown m w h hd data hh).2.1 hi hd0
+  rw [hxs] at hs
+  constructor
+  · intro hsing hfit
+    have hfit' : Fits hd.fmt xs hd.req := by
+      rcases hfit with h0 | h
+      · exact fits_library hd.fmt xs hd.req (by rw [h0]; exact offRepr_zero hd.fmt)
+      · exact h
+    obtain ⟨f, hw, _, hr⟩ := single_roundtrip_stored hd.fmt hd.endian xs hd.req data hf hok hd0 hfit'
+    obtain ⟨bytes, hser, hroom, hafter⟩ := no_overlap hd.fmt hd.endian xs hd.req data f hf hok hd0 hw
+    refine ⟨f, bytes, ?_, hser, hroom, hafter⟩
+    rw [hs]; unfold saveImgSpec; rw [if_pos hsing, hw]; simp only [hr]
+  · intro hpair
+    obtain ⟨p, hw, _, _, himg, hr⟩ := pair_roundtrip hd.fmt hd.endian xs hd.req data hok hd0
+    refine ⟨p, ?_, himg⟩
+    rw [hs]; unfold saveImgSpec; rw [if_neg (by rw [hpair]; simp), hw]; simp only [hr]
+
+/-- an image save leaves every header as it was (the data offset is restored in `finally`) -/
+theorem save_restores_header {Obj : Type} (m : Endian) (w : World Obj) (h : Nat) (data : List Nat) :
+    (w.step m (.saveImg h data)).1.hdrs = w.hdrs := by
+  simp only [World.step]
+  cases w.hdrs[h]? with
+  | none => rfl
+  | some hd =>
+    simp only
+    split
+    · simp only [World.saveImgCore]
+      split
+      · split <;> rfl
+      · split <;> rfl
+    · rfl
+
+/-- `header.write_to` itself keeps the reference lists, classes and byte orders, but LEAVES the offset it chose in the
+    field: (witness) growing an extension afterwards makes a second header-level write refuse, whereas an image
+    (offset restored) saves again with a fresh offset. -/
+theorem header_write_keeps_lists {Obj : Type} (m : Endian) (w : World Obj) (h k : Nat) :
+    ((w.step m (.saveHdr h)).1.hdrs[k]?).map (fun x => (x.cls, x.fmt, x.single, x.endian, x.refs, x.isImg)) =
+      (w.hdrs[k]?).map (fun x => (x.cls, x.fmt, x.single, x.endian, x.refs, x.isImg)) := by
+  simp only [World.step]
+  cases hh : w.hdrs[h]? with
+  | none => rfl
+  | some hd =>
+    simp only [World.saveHdrCore]
+    have hset : ∀ (w1 : World Obj) (off : Nat), w1.hdrs = w.hdrs →
+        ((w1.setHdr h { hd with req := off }).hdrs[k]?).map (fun x => (x.cls, x.fmt, x.single, x.endian, x.refs, x.isImg)) =
+          (w.hdrs[k]?).map (fun x => (x.cls, x.fmt, x.single, x.endian, x.refs, x.isImg)) := by
+      intro w1 off h1
+      unfold World.setHdr
+      simp only [h1, List.getElem?_set]
+      by_cases hk : h = k
+      · subst hk
+        have hlt : h < w.hdrs.length := (List.getElem?_eq_some_iff.mp hh).1
+        rw [if_pos rfl, if_pos hlt, hh]; rfl
+      · rw [if_neg hk]
+    split
+    · split
+      · rfl
+      · split
+        · exact hset _ _ rfl
+        · exact hset _ _ rfl
+    · split <;> rfl
+
+/-- an in-place edit is seen through EVERY header that references the object, and touches nothing else -/
+theorem edit_shows {Obj : Type} (m : Endian) (w : World Obj) (h i r : Nat) (c : XCell Obj) (f : Obj → Obj)
+    (hc : w.cellAt h i = some (r, c)) :
+    (w.step m (.edit h i f)).1.hdrs = w.hdrs ∧
+    ((w.step m (.edit h i f)).1.heap[r]?).map XCell.shownExt = some ⟨c.code, c.codec.mangle (f c.toObj)⟩ ∧
+    (∀ k, k ≠ r → (w.step m (.edit h i f)).1.heap[k]? = w.heap[k]?) := by
+  have hlt : r < w.heap.length := (List.getElem?_eq_some_iff.mp (cellAt_heap w h i r c hc).1).1
+  have hstep : (w.step m (.edit h i f)).1 = w.setCell r (c.edit f) := by simp only [World.step, hc]
+  rw [hstep]
+  refine ⟨rfl, ?_, ?_⟩
+  · show ((w.heap.set r (c.edit f))[r]?).map XCell.shownExt = _
+    rw [List.getElem?_set, if_pos rfl, if_pos hlt, XCell.edit_eq]; rfl
+  · intro k hk
+    show (w.heap.set r (c.edit f))[k]? = _
+    rw [List.getElem?_set, if_neg (fun e => hk e.symm)]
+
+/-! ## header copies and class conversions carry the extension list -/
+
+/-- the conversion table REGENERATED from the class hierarchy: every NIfTI header class converts to every other
+    (and to itself: `copy`) with its extension list -/
+theorem conversion_table_ok :
+    (∀ s ∈ Nb.Gen.C11.State.headerClasses, ∀ d ∈ Nb.Gen.C11.State.headerClasses,
+      Nb.Gen.C11.State.carriesExt.contains (s.1, d.1) = true) ∧
+    (Nb.Gen.C11.State.headerClasses.map (·.1)).Nodup ∧
+    (∀ c ∈ Nb.Gen.C11.State.headerClasses, c.2.1 = 1 ∨ c.2.1 = 2) := by
+  decide
+
+/-- `copy`, `from_header`, and making an image from a header, between ANY two NIfTI header classes: the new header
+    (appended to the world) references the same extension objects in the same order, so what a save of it emits is
+    what a save of the source would emit (`save_emits_shown`); the two LISTS are independent afterwards
+    (`lists_independent`). -/
+theorem conversion_carries_extensions {Obj : Type} (m : Endian) (w : World Obj) (h : Nat) (hd : XHdr)
+    (cls : String) (fmt : Fmt) (single : Bool) (hh : w.hdrs[h]? = some hd)
+    (hs : hd.cls ∈ Nb.Gen.C11.State.headerClasses.map (·.1)) (hdst : cls ∈ Nb.Gen.C11.State.headerClasses.map (·.1)) :
+    (∃ n, (w.step m (.copy h)).1.hdrs = w.hdrs ++ [n] ∧ n.refs = hd.refs ∧ n.endian = hd.endian ∧ n.req = hd.req) ∧
+    (∀ n, convert m hd cls fmt single = .ok n → n.refs = hd.refs ∧
+      (w.step m (.fromHeader h cls fmt single)).1.hdrs = w.hdrs ++ [n] ∧
+      (w.step m (.mkImg h cls fmt single)).1.hdrs = w.hdrs ++ [{ n with req := 0, isImg := true }]) ∧
+    (∀ op, op = XOp.copy h ∨ op = XOp.fromHeader h cls fmt single ∨ op = XOp.mkImg h cls fmt single →
+      (w.step m op).1.heap = w.heap) := by
+  refine ⟨⟨{ hd with isImg := false }, ?_, rfl, rfl, rfl⟩, ?_, ?_⟩
+  · simp only [World.step, hh]
+  · intro n hn
+    have hcar : Nb.Gen.C11.State.carriesExt.contains (hd.cls, cls) = true := by
+      obtain ⟨s, hs1, hs2⟩ := List.mem_map.mp hs
+      obtain ⟨d, hd1, hd2⟩ := List.mem_map.mp hdst
+      have := conversion_table_ok.1 s hs1 d hd1
+      rw [hs2, hd2] at this
+      exact this
+    have hrefs : n.refs = hd.refs := by
+      unfold convert at hn
+      simp only [hcar, if_true] at hn
+      split at hn
+      · cases hn
+      · cases hn; rfl
+    refine ⟨hrefs, ?_, ?_⟩
+    · simp only [World.step, hh, hn]
+    · simp only [World.step, hh, hn]
+  · intro op hop
+    rcases hop with rfl | rfl | rfl
+    · simp only [World.step, hh]
+    · simp only [World.step, hh]; cases convert m hd cls fmt single <;> rfl
+    · simp only [World.step, hh]; cases convert m hd cls fmt single <;> rfl
+
+/-- list operations on one header (`insert`, `del`, sharing an object into it) leave every OTHER header alone -/
+theorem lists_independent {Obj : Type} (m : Endian) (w : World Obj) (op : XOp Obj) (h k : Nat) (hk : k ≠ h)
+    (hop : (∃ pos c code raw, op = .newRaw h pos c code raw) ∨ (∃ pos c code o, op = .newObj h pos c code o) ∨
+           (∃ i, op = .del h i) ∨ (∃ h1 i pos, op = .share h1 i h pos) ∨ (∃ off, op = .setOff h off)) :
+    (w.step m op).1.hdrs[k]? = w.hdrs[k]? := by
+  have hset : ∀ (hd : XHdr), (w.setHdr h hd).hdrs[k]? = w.hdrs[k]? := by
+    intro hd; unfold World.setHdr; simp only [List.getElem?_set]; rw [if_neg (fun e => hk e.symm)]
+  have hadd : ∀ (pos : Nat) (c : XCell Obj), (w.addCell h pos c).1.hdrs[k]? = w.hdrs[k]? := by
+    intro pos c
+    unfold World.addCell
+    cases w.hdrs[h]? with
+    | none => rfl
+    | some hd =>
+      simp only
+      split
+      · rfl
+      · simp only [List.getElem?_set]; rw [if_neg (fun e => hk e.symm)]
+  rcases hop with ⟨pos, c, code, raw, rfl⟩ | ⟨pos, c, code, o, rfl⟩ | ⟨i, rfl⟩ | ⟨h1, i, pos, rfl⟩ | ⟨off, rfl⟩
+  · exact hadd _ _
+  · exact hadd _ _
+  · simp only [World.step]
+    cases w.hdrs[h]? with
+    | none => rfl
+    | some hd => simp only; split; exact hset _; rfl
+  · simp only [World.step]
+    split
+    · split
+      · rfl
+      · exact hset _
+    · rfl
+  · simp only [World.step]
+    cases w.hdrs[h]? with
+    | none => rfl
+    | some hd => exact hset _
+
+/-- `NiftiExtension.write_to` (calls regenerated from the source): the size query (which syncs) comes first, then
+    esize/ecode, then `self._raw`, then the pad — the order the model's `XCell.writeTo` / `serializeExt` assume -/
+theorem write_plan_ok :
+    Nb.Gen.C11.State.writeToPlan =
+      ["self.get_sizeondisk()", "fileobj.write(extinfo.tobytes())", "fileobj.write(self._raw)", "fileobj.write(bytes(pad))"] := by
+  decide
+
+
+/-- `Nifti1Header.from_fileobj` for a detached header (`.hdr` of a pair): the `extsize` it passes (GENERATED from the
+    `if not klass.is_single:` branch) is negative, so the extensions run to the END of the header file — for EVERY
+    value of the `vox_offset` field (which is an offset into the `.img` file and says nothing about the `.hdr`; in
+    particular values ≥ 352 / 544), either byte order, any number of extensions, both formats. -/
+theorem pair_extensions_run_to_eof (fmt : Fmt) (e : Endian) (xs : List Ext) (bytes : List Nat) (off : Nat)
+    (hok : AllOK xs) (hser : serializeExts e xs = .ok bytes) :
+    Nb.Gen.C11.pairExtSize < 0 ∧
+    readExtsAfter false fmt e ⟨off, if xs.isEmpty then [] else [1, 0, 0, 0] ++ bytes⟩ = .ok (xs.map Ext.strip) := by
+  refine ⟨by decide, ?_⟩
+  cases xs with
+  | nil => rfl
+  | cons x xs =>
+    unfold readExtsAfter
+    simp only [List.isEmpty_cons, Bool.false_eq_true, if_false, List.cons_append, List.nil_append,
+      List.take_succ_cons, List.take_zero, List.drop_succ_cons, List.drop_zero]
+    rw [if_neg (by omega)]
+    exact parseExts_eof e (x :: xs) bytes Nb.Gen.C11.pairExtSize (by decide) hok hser
+
+example : AllOK [⟨4, [1, 2, 3, 0, 0]⟩] ∧ readExtsAfter false nifti1 .be ⟨400, [1, 0, 0, 0, 0, 0, 0, 16, 0, 0, 0, 4, 1, 2, 3, 0, 0, 0, 0, 0]⟩
+    = .ok [⟨4, [1, 2, 3]⟩] := by decide
+
+/-! ### non-vacuity of the wave-3 theorems: one concrete history -/
+
+/-- an image header of class Nifti1Header, little endian, no extensions yet -/
+def exWorld : World (List Nat) := ⟨[], [⟨"Nifti1Header", nifti1, true, .le, 0, [], true⟩]⟩
+/-- build an extension from a runtime object, then edit the object in place -/
+def exOps : List (XOp (List Nat)) := [.newObj 0 0 ⟨id, id⟩ 6 [104, 105], .edit 0 0 (fun o => o ++ [33])]
+
+example : World.XOp.isRead (XOp.saveHdr 0 : XOp (List Nat)) = true ∧ World.XOp.isRead (XOp.content 0 0 : XOp (List Nat)) = true := ⟨rfl, rfl⟩
+example : (World.run .le exWorld exOps).1.hdrs[0]? = some ⟨"Nifti1Header", nifti1, true, .le, 0, [0], true⟩ := rfl
+example : (World.run .le exWorld exOps).1.shownExts [0] = [⟨6, [104, 105, 33]⟩] := rfl
+example : AllOK ((World.run .le exWorld exOps).1.shownExts [0]) := by
+  show AllOK [⟨6, [104, 105, 33]⟩]
+  decide
+example : FmtOK nifti1 ∧ ([7] : List Nat) ≠ [] := by decide
+example : (World.run .le exWorld exOps).1.cellAt 0 0 = some (0, ⟨⟨id, id⟩, 6, [], some [104, 105, 33]⟩) := rfl
+example : "Nifti1Header" ∈ Nb.Gen.C11.State.headerClasses.map (·.1) ∧
+    "Nifti2PairHeader" ∈ Nb.Gen.C11.State.headerClasses.map (·.1) := by decide
+example : ∃ n, convert .le ⟨"Nifti1Header", nifti1, true, .be, 0, [0], false⟩ "Nifti2PairHeader" nifti2 false = .ok n ∧
+    n.refs = [0] ∧ n.endian = .le := ⟨_, rfl, rfl, rfl⟩
+/-- the witness announced in `header_write_keeps_lists`: after a header-level write the field holds 368; the
+    extension grows to 32 bytes on disk; the minimum is now 384 and the second write is refused -/
+example : ((World.run .le ⟨[], [⟨"Nifti1Header", nifti1, true, .le, 0, [], false⟩]⟩
+    [.newObj 0 0 ⟨id, id⟩ 6 [104, 105], .saveHdr 0, .edit 0 0 (fun o => o ++ [1, 2, 3, 4, 5, 6, 7]), .saveHdr 0]).1.hdrs.map (·.req))
+    = [368] := rfl
 
 end Nb.C11
